@@ -263,6 +263,17 @@ func genContainer(c *Ctx) {
 			}
 			return [][]byte{cb, d}
 		}), fl, nil)
+		// an entry that is a sealed token followed by further bytes, stored under the CID of the whole entry
+		for _, junk := range [][]byte{{0x00}, {0xf6}, {1, 2, 3, 4}, set[victim].b} {
+			padded := append(append([]byte{}, set[victim].b...), junk...)
+			pid, _ := cid.V1Builder{Codec: cid.DagCBOR, MhType: mh.SHA2_256}.Sum(padded)
+			emitBoth("ctn/corrupt/entry-trailing-bytes", true, build(func(i int, cb, d []byte) [][]byte {
+				if i == victim {
+					return [][]byte{pid.Bytes(), padded}
+				}
+				return [][]byte{cb, d}
+			}), append(append([]W{}, facts...), factW(padded)), nil)
+		}
 		if len(set) > 1 {
 			other := (victim + 1) % len(set)
 			if !set[other].c.Equals(set[victim].c) {
